@@ -30,6 +30,8 @@ func init() {
 type expEv struct {
 	sev
 	Optional bool      // may be suppressed by the configured equivalence
+	Tol      bool      // may be suppressed if it is within the tolerance of what the subscriber was last sent
+	OldEq    bool      // (Tol) the write's new value is within the tolerance of the value it replaced
 	T0, T1   time.Time // window the change time must lie in (when !Exact)
 	Exact    bool      // change time must equal T0
 	What     string
@@ -47,6 +49,12 @@ func scriptRun(w *World, coll bool) {
 	// (in half of the runs every message has a constant nested part and somebody keeps reading with a read mask that
 	// reaches into it: whatever such a read does, what the subscribers are sent must stay whole)
 	cfg := resCfg{Coll: coll, Equiv: t.Flag(1, 3), Ballast: t.Flag(1, 2)}
+	// a Value with an equivalence that is a tolerance (messages that differ only in V, or in N by at most 1, count as
+	// the same): not transitive, so what is suppressed depends on what the subscriber was last told - small steps add up
+	tol := !coll && !cfg.Equiv && t.Flag(1, 3)
+	if tol {
+		cfg.EquivNoV, cfg.EquivTolN = true, true
+	}
 	var nextV int32
 	fresh := func() int32 { nextV++; return nextV }
 	ids := []string{"a", "b", "c"}
@@ -89,6 +97,9 @@ func scriptRun(w *World, coll bool) {
 			sc.RMaskSet, sc.RMask = true, []string{fV}
 		case 2:
 			sc.RMaskSet, sc.RMask = true, []string{fS}
+			if tol {
+				sc.RMask = []string{fV, fS} // (events stay attributable to their writes)
+			}
 		case 3:
 			sc.RMaskSet, sc.RMask = true, []string{fV, fN}
 		}
@@ -155,6 +166,10 @@ func scriptRun(w *World, coll bool) {
 			e.Type, e.HasNew, e.New = types.ChangeType_UPDATE, true, proj(rec.res.Msg)
 			if cfg.Equiv && before.present && proj(before.val) == e.New {
 				e.Optional = true
+			}
+			e.Tol = cfg.EquivTolN
+			if d := proj(before.val).N - e.New.N; before.present && proj(before.val).S == e.New.S && proj(before.val).B == e.New.B && d >= -1 && d <= 1 {
+				e.OldEq = true
 			}
 		case o.Kind == opDelete:
 			e.Type, e.HasOld, e.Old = types.ChangeType_REMOVE, true, proj(rec.res.Msg)
@@ -337,6 +352,9 @@ func scriptRun(w *World, coll bool) {
 			}
 			if o.Kind != opDelete {
 				o.Val = mm{V: fresh(), N: int64(t.Choose(2))}
+				if tol {
+					o.Val.N = int64(t.Choose(4))
+				}
 				if t.Flag(1, 3) {
 					o.Val.S = "t"
 				}
@@ -471,10 +489,13 @@ type scriptDelta struct {
 func scriptDiff(s *scriptSub) *scriptDelta {
 	got := s.events
 	gi := 0
+	var last mm
+	hasLast := false
 	for _, e := range s.expect {
 		if gi < len(got) && sameEvent(got[gi], e.sev) {
 			g := got[gi]
 			gi++
+			last, hasLast = e.New, e.HasNew
 			// change time
 			if e.Exact {
 				if !g.Time.Equal(e.T0) {
@@ -487,6 +508,15 @@ func scriptDiff(s *scriptSub) *scriptDelta {
 		}
 		if e.Optional {
 			continue
+		}
+		if d := last.N - e.New.N; e.Tol && hasLast && last.S == e.New.S && last.B == e.New.B && d >= -1 && d <= 1 {
+			continue // within the tolerance of what it was sent last (V does not count)
+		}
+		if e.Tol && !hasLast && e.OldEq {
+			continue // it has not been sent anything yet (updates only), and the write made no difference
+		}
+		if e.Tol && gi >= len(got) {
+			return &scriptDelta{"script-mismatch", "missing", fmt.Sprintf("event %s (%s) was never received although it is not equivalent to %s, the last value the subscriber was sent (has one: %v)", e.sev, e.What, last, hasLast), e}
 		}
 		if gi >= len(got) {
 			return &scriptDelta{"script-mismatch", "missing", fmt.Sprintf("event %s (%s) was never received", e.sev, e.What), e}
